@@ -98,7 +98,8 @@ Enums == {"Color", "Level", "Tag"}
 Lits == {Lit(<<LInt("1"), LStr("a")>>), Lit(<<LStr("x"), LNone>>), Lit(<<LBool("True"), LInt("2")>>),
          Lit(<<LStr("1"), LInt("1")>>), Lit(<<LStr("null"), LNone>>), Lit(<<LStr("true"), LBool("True")>>),
          \* members that compare equal but are of different classes
-         Lit(<<LInt("1"), LBool("True")>>), Lit(<<LInt("0"), LBool("False"), LStr("off")>>)}
+         Lit(<<LInt("1"), LBool("True")>>), Lit(<<LInt("0"), LBool("False"), LStr("off")>>),
+         Lit(<<LStr("on"), LStr("off")>>)}
 
 CollSpell == {<<"list", "builtin">>, <<"list", "typing">>, <<"list", "Sequence">>, <<"list", "abcSequence">>,
               <<"list", "MutableSequence">>, <<"list", "Collection">>, <<"list", "Iterable">>, <<"list", "abcIterable">>,
